@@ -2,7 +2,7 @@
 import re
 from .model import short, const_val
 from .roles import Roles, INNER, KEYFILE, VALFILE, M_KEY, M_VAL
-from .util import where, origins, calls_to, leaf_origins, in_cycle, find_bool_split, region_dominated, tracer, is_call_to, field_stores
+from .util import ret_agg_blocks, where, origins, calls_to, leaf_origins, in_cycle, find_bool_split, region_dominated, tracer, is_call_to, field_stores
 from .fields import dot, fq
 from . import flushpath as fp, k7
 
@@ -111,31 +111,47 @@ def _check_own(ctx):
                 if st["s"] == "assign" and st["rhs"]["rv"] == "use" and st["rhs"]["a"].get("cdef"):
                     tab = st["rhs"]["a"]["cdef"]
         ctx.check(tab == mod + "::REC_SIZE_ARY", "free-count", kind + ":own-table", "%s iterates %s, expected its own size-class table" % (m, tab), where=where(f))
+        # the per-class body is either the body of a loop in f or a closure mapped over the table
         sites = calls_to(prog, f, target_fn=fc)
-        ok = len(sites) == 1 and in_cycle(f, sites[0][0])
+        body, elem_ok = f, None
+        if len(sites) == 1 and in_cycle(f, sites[0][0]):
+            elem_ok = lambda os_: bool(os_) and all(x.kind == "call" and (x.data.get("callee") or "").endswith("Iterator::next") for x in os_)
+            nx = [(bb, tt) for bb, tt in f.calls() if (tt.get("callee") or "").endswith("Iterator::next")]
+            ok = len(nx) == 1
+        else:
+            cls = [c for c in prog.closures_of(f) if calls_to(prog, c, target_fn=fc)]
+            ok = len(cls) == 1 and not sites
+            if ok:
+                body = cls[0]
+                sites = calls_to(prog, body, target_fn=fc)
+                ok = len(sites) == 1 and not in_cycle(body, sites[0][0])
+                elem_ok = lambda os_: bool(os_) and all(x.kind == "param" and x.data == 2 and not [p_ for p_ in x.proj if p_.startswith(("idx", "sub"))] for x in os_)
+                maps = [(bb, tt) for bb, tt in f.calls() if (tt.get("callee") or "").endswith(("Iterator::map", "Iterator::for_each", "Iterator::try_for_each"))]
+                ok = ok and len(maps) == 1
         if ok:
             b, t = sites[0]
-            a = leaf_origins(prog, f, t["args"][1], at=b, terminal_only=True)
-            ok = bool(a) and all(x.kind == "call" and (x.data.get("callee") or "").endswith("Iterator::next") for x in a)
-            # the iterator is over the table
-            nx = [(bb, tt) for bb, tt in f.calls() if (tt.get("callee") or "").endswith("Iterator::next")]
-            ii = [(bb, tt) for bb, tt in f.calls() if (tt.get("callee") or "").endswith("IntoIterator::into_iter")]
-            ok = ok and len(nx) == 1 and len(ii) == 1
+            a = leaf_origins(prog, body, t["args"][1], at=b, terminal_only=True)
+            ok = elem_ok(a)
+            # the iteration is over the 16-entry table
+            ii = [(bb, tt) for bb, tt in f.calls() if (tt.get("callee") or "").endswith(("IntoIterator::into_iter", "]>::iter", "::iter"))]
+            ok = ok and len(ii) == 1
             if ok:
                 src = leaf_origins(prog, f, ii[0][1]["args"][0], at=ii[0][0], terminal_only=True)
                 ok = bool(src) and all(x.kind == "const" and isinstance(x.data, tuple) and len(x.data) == 16 for x in src)
-            # pushed pair = (class, count)
-            ps = [(bb, tt) for bb, tt in f.calls() if (tt.get("callee") or "").endswith("Vec::<T, A>::push")]
-            ok = ok and len(ps) == 1
+            # reported pair = (class, count)
+            pairs = []
+            for bb, blk in enumerate(body.blocks):
+                if blk["cleanup"]:
+                    continue
+                for st in blk["stmts"]:
+                    if st["s"] == "assign" and st["rhs"]["rv"] == "agg" and st["rhs"].get("agg") == "tuple" and len(st["rhs"]["ops"]) == 2:
+                        c1 = leaf_origins(prog, body, st["rhs"]["ops"][1], at=bb, terminal_only=True)
+                        if c1 and all(is_call_to(prog, body, y, fc) for y in c1):
+                            pairs.append((bb, st))
+            ok = ok and len(pairs) == 1
             if ok:
-                good = False
-                for x in origins(prog, f, ps[0][1]["args"][1], at=ps[0][0]):
-                    if x.kind == "agg" and x.data.get("agg") == "tuple" and len(x.data["ops"]) == 2:
-                        c0 = leaf_origins(prog, f, x.data["ops"][0], at=x.block, terminal_only=True)
-                        c1 = leaf_origins(prog, f, x.data["ops"][1], at=x.block, terminal_only=True)
-                        good = all(y.kind == "call" and (y.data.get("callee") or "").endswith("Iterator::next") for y in c0) and bool(c0) \
-                            and all(is_call_to(prog, f, y, fc) for y in c1) and bool(c1)
-                ok = good
+                c0 = leaf_origins(prog, body, pairs[0][1]["rhs"]["ops"][0], at=pairs[0][0], terminal_only=True)
+                ok = elem_ok(c0)
         ctx.check(ok, "free-count", kind + ":per-class", "%s does not report (class, free-list length of that class) for each of the 16 classes" % m, where=where(f))
     # the counter
     ctx.touch(fc, len(fc.blocks))
@@ -161,7 +177,7 @@ def _check_own(ctx):
     ret = leaf_origins(prog, fc, {"k": "cp", "pl": {"l": 0, "p": []}}, terminal_only=True)
     ok = len(incs) == 1 and in_cycle(fc, incs[0]) and bool(sn) and (fc.dominates(incs[0], sn[0][0]) or fc.dominates(sn[0][0], incs[0]))
     # ... on *every* trip round the loop: the hop cannot be repeated without passing the increment
-    ok = ok and sn[0][0] not in fc.reachable(fc.normal_succs(sn[0][0]), avoid={incs[0]})
+    ok = ok and sn[0][0] not in fc.reachable_ok(fc.normal_succs(sn[0][0]), avoid={incs[0]})
     ctx.check(ok, "free-count", "one-per-hop", "the free-list counter does not add exactly one per visited slot", where=where(fc))
     # ---- (2) key/value siblings
     pairs = [("key_piece_size_stats", "value_piece_size_stats"), ("key_length_stats", "value_length_stats")]
@@ -173,8 +189,6 @@ def _check_own(ctx):
         kf, vf = kf[0], vf[0]
         ctx.touch(kf, len(kf.blocks))
         ctx.touch(vf, len(vf.blocks))
-        ctx.check(_shape(kf) == _shape(vf), "siblings", "%s~%s" % (km, vm),
-                  "%s and %s are no longer the same function modulo Key<->Value (the two histograms would be computed differently)" % (km, vm), where=where(vf))
         for f, kind in ((kf, "key"), (vf, "value")):
             wg = walk_getter(prog, kind)
             walk = calls_to(prog, f, target_fn=wg[0]) if wg else []
@@ -187,12 +201,21 @@ def _check_own(ctx):
                 # loads use the offset yielded by the walk
                 a = leaf_origins(prog, f, lens[0][1]["args"][1], at=lens[0][0], terminal_only=True)
                 ok = bool(a) and all(x.kind == "call" and (x.data.get("callee") or "").endswith("Iterator::next") for x in a)
-                def zp(o):
-                    return o.kind == "call" and (o.data.get("callee") or "").endswith("::is_zero") and \
-                        all(y.kind == "call" and y.block == lens[0][0] for y in origins(prog, f, o.data["args"][0], at=o.block))
-                zs = find_bool_split(prog, f, zp)
+                from .util import zero_splits, value_origins
+                zs = zero_splits(prog, f, lambda a_: all(y.kind == "call" and y.block == lens[0][0] for y in a_))
                 ok = ok and len(zs) == 1 and touch[0][0] in region_dominated(f, zs[0]["false"])
             ctx.check(ok, "siblings", f.name + ":counts-live-only", "%s does not walk its own file's slots and count only records with a non-zero length" % f.name, where=where(f))
+            # every slot is visited: once the walk has produced a slot, the only ways on are back to the walk or out with an error
+            nx = [(b, t) for b, t in f.calls() if (t.get("callee") or "").endswith("Iterator::next")]
+            w2e = len(nx) == 1 and in_cycle(f, nx[0][0])
+            if w2e:
+                from .util import enum_switches
+                sws = [sw for sw in enum_switches(prog, f) if sw["src"] and all(x.kind == "call" and x.block == nx[0][0] and not x.proj for x in sw["src"])]
+                w2e = len(sws) == 1 and sws[0]["targets"].get(1) is not None
+                if w2e:
+                    some_e = sws[0]["targets"][1]
+                    w2e = not any(rb in f.reachable_ok(some_e, avoid={nx[0][0]}) for rb in f.return_blocks())
+            ctx.check(w2e, "siblings", f.name + ":walks-to-the-end", "%s can stop before the slot walk is exhausted: slots behind that point are not counted" % f.name, where=where(f))
     # own-file walkers
     for kind, fld in (("key", dot(prog, "INNER.key_file")), ("value", dot(prog, "INNER.val_file"))):
         w = walk_getter(prog, kind)
@@ -218,8 +241,9 @@ def _check_own(ctx):
         ok = {x.key() for x in o0} == {x.key() for x in po} and bool(o1) and all(x.kind == "call" and x.block == ps[0][0] for x in o1)
         ok = ok and all(x.kind == "param" and x.proj and x.proj[-1].endswith(dot(prog, "WALK.cur")) for x in po)
     ctx.check(ok, "slot-walk", "advance-by-stored-size", "the slot walk does not advance by the size stored at the current offset", where=where(sw))
-    conds = [c for c in k7.conditions(prog, sw) if c[3][0] in ("Lt", "Le", "Gt", "Ge")]
-    ok = any(c[3][0] == "Lt" and c[3][2][0] == "p" and c[3][2][2] and c[3][2][2][-1].endswith(dot(prog, "WALK.end")) for c in conds)
+    somes_w = [b for b, s_ in ret_agg_blocks(sw, "core::option::Option", "Some")] if True else []
+    facts = [(sb, tg) for (sb, tg, X, Y) in k7.lt_facts(prog, sw) if Y[0] == "p" and Y[2] and Y[2][-1].endswith(dot(prog, "WALK.end"))]
+    ok = bool(facts) and bool(somes_w) and all(any(sw.dominates(tg, sb_) and all(p_ == fb for p_ in sw.preds()[tg]) for fb, tg in facts) for sb_ in somes_w)
     ctx.check(ok, "slot-walk", "stops-at-end", "the slot walk does not stop at the end of the file (next < end)", where=where(sw))
     for kind, owner, mod in (("key", KEYFILE, M_KEY), ("val", VALFILE, M_VAL)):
         st = [piecea(prog, owner)["start"]] if piecea(prog, owner) else []
@@ -266,24 +290,30 @@ def _check_own(ctx):
     ctx.touch(hf, len(hf.blocks))
     bl = calls_to(prog, hf, target_fn=R.need("BUCKET_LOAD"))
     ok = len(bl) == 1 and in_cycle(hf, bl[0][0])
+    idx_locals = set()
     if ok:
-        a = leaf_origins(prog, hf, bl[0][1]["args"][1], at=bl[0][0], terminal_only=True)
-        ok = bool(a) and all(x.kind == "call" and (x.data.get("callee") or "").endswith("Iterator::next") for x in a)
-        # the range is 0..buckets_size (cached)
-        rng = [(b, s) for b, blk in enumerate(hf.blocks) for s in blk["stmts"] if s["s"] == "assign" and s["rhs"]["rv"] == "agg" and (s["rhs"].get("adt") or "").endswith("ops::range::Range")]
-        ok = ok and len(rng) == 1
-        if ok:
-            lo = origins(prog, hf, rng[0][1]["rhs"]["ops"][0], at=rng[0][0])
-            hi = origins(prog, hf, rng[0][1]["rhs"]["ops"][1], at=rng[0][0])
-            ok = all(x.kind == "const" and x.data == 0 for x in lo) and bool(hi) and all(x.proj and x.proj[-1].endswith(fq(prog, "HTXCACHE.buckets_size")) for x in hi)
+        from .util import full_range_index, zero_splits
+        rng = full_range_index(prog, hf, bl[0][1]["args"][1], bl[0][0])
+        ok = rng is not None and rng[0] == ("c", 0) and rng[1][0] in ("p", "call?", "var") and len(rng[1]) > 2 and rng[1][2] \
+            and str(rng[1][2][-1]).endswith(fq(prog, "HTXCACHE.buckets_size"))
+        c_idx = k7.Canon(prog, hf).op(bl[0][1]["args"][1], bl[0][0])
+        if c_idx[0] == "var":
+            idx_locals.add(c_idx[1])
     ctx.check(ok, "filling-rate", "all-buckets", "htx_filling_rate_per_mill does not read every bucket 0..cached bucket count", where=where(hf))
-    def zp2(o):
-        return o.kind == "call" and (o.data.get("callee") or "").endswith("::is_zero") and bl and \
-            all(is_call_to(prog, hf, y, R.need("BUCKET_LOAD")) for y in origins(prog, hf, o.data["args"][0], at=o.block))
-    zs = find_bool_split(prog, hf, zp2)
-    incs = [b for b, blk in enumerate(hf.blocks) for s in blk["stmts"] if not blk["cleanup"] and s["s"] == "assign" and s["rhs"]["rv"] == "bin"
-            and s["rhs"]["op"] in ("Add", "AddWithOverflow") and const_val(s["rhs"]["b"]) == 1 and s["rhs"]["a"].get("k") in ("cp", "mv")
-            and hf.local_name(k7.Canon(prog, hf).root(s["rhs"]["a"])["pl"]["l"]) == "count"]
+    from .util import zero_splits
+    zs = zero_splits(prog, hf, lambda a_: bool(bl) and all(is_call_to(prog, hf, y, R.need("BUCKET_LOAD")) for y in a_))
+    # the counter: the one `x = x + 1` in the loop that is not the loop index
+    incs = []
+    cn_ = k7.Canon(prog, hf)
+    for b_, blk in enumerate(hf.blocks):
+        if blk["cleanup"] or not in_cycle(hf, b_):
+            continue
+        for s_ in blk["stmts"]:
+            if s_["s"] == "assign" and s_["rhs"]["rv"] == "bin" and s_["rhs"]["op"] in ("Add", "AddWithOverflow") and const_val(s_["rhs"]["b"]) == 1 \
+                    and s_["rhs"]["a"].get("k") in ("cp", "mv"):
+                root = cn_.root(s_["rhs"]["a"])["pl"]["l"]
+                if root not in idx_locals and not (hf.local_ty(root) or "").startswith("core::ops::range"):
+                    incs.append(b_)
     ok = len(zs) == 1 and len(incs) == 1 and incs[0] in region_dominated(hf, zs[0]["false"])
     ctx.check(ok, "filling-rate", "counts-non-empty", "the filling figure does not count exactly the non-empty buckets", where=where(hf))
     cn = k7.Canon(prog, hf)
